@@ -1,16 +1,28 @@
 ---- MODULE Trace_Obs ----
 \* TV for C19: the extra text the introspection options write (all three on), classified by the harness into events, must be
 \* exactly what BclVM and BclISA say about the *decoded real dump*:
-\*   disasm events: one per instruction, in order, at the instruction boundaries of the code, with the mnemonic of BclISA;
+\*   disasm events: one per instruction, in order, at the instruction boundaries of the code, with the mnemonic of BclISA, the
+\*     position column (line:column of the instruction's source position by the stored line table, or "|"), the operand and the
+\*     jump target as the format defines them;
 \*   pstats: opsCreated = number of instructions, codeBytes = Len(code), constants = number of constants;
 \*   trace events: exactly the executed path of BclVM (offset, mnemonic, operand depth before the instruction), one per step;
 \*   xstats: opsRead = number of trace events = steps BclVM takes; tosMax and pcFinal as the machine computes them.
 \* A rejected program has no listing, no trace and no xstats.
 EXTENDS BclVM, TLC, Json
+LC == INSTANCE BclLineCol
 Trace == ndJsonDeserialize("trace.ndjson")
 VARIABLES l, st, hdr, nextOff, ninstr, ntrace, xseen
 vars == <<l, st, hdr, nextOff, ninstr, ntrace, xseen>>
-ProgOf(h) == LET d == DecodeProg(h.dump) IN [code |-> d.code, consts |-> [i \in 1..Len(d.consts) |-> ValOf(d.consts[i])]]
+ProgOf(h) == LET d == DecodeProg(h.dump) IN [code |-> d.code, consts |-> [i \in 1..Len(d.consts) |-> ValOf(d.consts[i])],
+                                             positions |-> d.positions, lfs |-> d.lfs]
+\* the position column of a listing line: "|" (logged as line 0) when the instruction's first byte has the position of the byte
+\* before it, else line:column of that position by the stored line table
+PosCol(p, off) == IF off > 0 /\ p.positions[off + 1] = p.positions[off] THEN <<0, 0>> ELSE LC!LineColOf(p.lfs, p.positions[off + 1])
+\* the first numeric operand shown for an instruction, -1 when it has none; jumps also show their target
+ShownArg(ins) == IF ins.op \in {"CONST", "GETFIELD", "SETFIELD", "GETLOCAL", "SETLOCAL", "POPN", "DEFBLOCK", "JUMP", "JFALSE", "LOOP", "BIND"} THEN ins.a ELSE -1
+ShownTarget(ins, off) == IF ins.op \in {"JUMP", "JFALSE"} THEN off + 3 + ins.a ELSE IF ins.op = "LOOP" THEN off + 3 - ins.a ELSE -1
+LineOk(p, e, off) == LET ins == Instr(p.code, off) IN
+                     /\ e.op = ins.op /\ <<e.pl, e.pc>> = PosCol(p, off) /\ e.arg = ShownArg(ins) /\ e.target = ShownTarget(ins, off)
 Idle == [done |-> TRUE, ood |-> FALSE]
 Init == l = 1 /\ st = Idle /\ hdr = [e |-> "none"] /\ nextOff = 0 /\ ninstr = 0 /\ ntrace = 0 /\ xseen = FALSE /\ TLCSet(1, 1)
 \* the end of one program's events: the listing covered the whole code; the trace ran the machine to its end
@@ -24,10 +36,10 @@ Reset == /\ l <= Len(Trace) /\ Trace[l].e = "reset" /\ Closed
 Header == /\ l <= Len(Trace) /\ Trace[l].e = "header" /\ hdr.accepted /\ ninstr = 0 /\ l' = l + 1 /\ UNCHANGED <<st, hdr, nextOff, ninstr, ntrace, xseen>>
 Disasm == /\ l <= Len(Trace) /\ Trace[l].e = "disasm" /\ hdr.accepted /\ ntrace = 0
           /\ Trace[l].off = nextOff /\ Fits(st.prog.code, nextOff)
-          /\ LET ins == Instr(st.prog.code, nextOff) IN Trace[l].op = ins.op /\ nextOff' = nextOff + ins.len
+          /\ LET ins == Instr(st.prog.code, nextOff) IN LineOk(st.prog, Trace[l], nextOff) /\ nextOff' = nextOff + ins.len
           /\ ninstr' = ninstr + 1 /\ l' = l + 1 /\ UNCHANGED <<st, hdr, ntrace, xseen>>
 TraceEv == /\ l <= Len(Trace) /\ Trace[l].e = "trace" /\ hdr.accepted /\ nextOff = Len(st.prog.code)
-           /\ (st.ood \/ (~st.done /\ Trace[l].off = st.pc /\ Trace[l].depth = Len(st.stack) /\ Trace[l].op = Instr(st.prog.code, st.pc).op))
+           /\ (st.ood \/ (~st.done /\ Trace[l].off = st.pc /\ Trace[l].depth = Len(st.stack) /\ LineOk(st.prog, Trace[l], st.pc)))
            /\ st' = (IF st.ood THEN st ELSE StepVM(st))
            /\ ntrace' = ntrace + 1 /\ l' = l + 1 /\ UNCHANGED <<hdr, nextOff, ninstr, xseen>>
 StatOk(e) ==
